@@ -71,6 +71,9 @@ mutual
     | threshold (name : Expr) (hasKey : Bool) (key : Expr)
     /-- `self.form(f).threshold(name[, key])`: `Field.form(f)` indexes the solver's loaded forms -/
     | thresholdOf (form : Expr) (name : Expr) (hasKey : Bool) (key : Expr)
+    /-- `self.form(f)` used for its effect only (the statement `s.form('1040')`): the form must be
+    loaded, the value (a form object) is not a DSL value and evaluates to `None` -/
+    | loadedForm (form : Expr)
     /-- `self.form().instance()` -/
     | instance
     /-- `self.not_implemented([detail])`: the argument is evaluated first -/
@@ -109,8 +112,8 @@ mutual
     | expr (e : Expr)
     /-- `x.append(e)` on a local list -/
     | append (x : String) (e : Expr)
-    /-- `assert c` (a message, if any, is a constant or an f-string over locals: it cannot fail) -/
-    | assertS (c : Expr)
+    /-- `assert c, msg`: the message (`const none` when absent) is evaluated only when `c` fails -/
+    | assertS (c msg : Expr)
     | continueS
     | breakS
     | pass
